@@ -255,12 +255,17 @@ func runC13(o Opts) *Result {
 		pair := pairings[idx%len(pairings)]
 		strat := rng.Intn(3)
 		cfgTTL := []time.Duration{cache.UnlimitedTTL, time.Hour, 0}[rng.Intn(3)]
+		// soft limits of the target do not concern Restore (the janitor, every hour, would act on them): a dump larger than the
+		// target's CountSoftLimit is restored completely
+		csl := []uint64{0, 0, 3, 50}[rng.Intn(4)]
+		res.count(fmt.Sprintf("target-count-soft-limit:%d", csl))
 		mk := func(kind string) xcache {
 			return newX(kind, func(c *cache.Config) {
 				c.TimeToLive = cfgTTL
 				c.EvictionStrategy = cache.EvictionStrategy(strat)
 				c.ExpirationJitter = -1
 				c.DeleteExpiredAfter = time.Millisecond
+				c.CountSoftLimit = csl
 			})
 		}
 		max := 300
@@ -342,7 +347,12 @@ func runC13(o Opts) *Result {
 						Replay: map[string]interface{}{"rerun": fmt.Sprintf("harness xfer -profile c13 -seed %d -only %d", o.Seed, idx)}})
 					ok = false
 				}
-				// a cleanup cycle on the restored cache behaves like on the model (restored expiries count: C11)
+				// a cleanup cycle on the restored cache behaves like on the model (restored expiries count: C11); the model instance
+				// of this engine has no count limit, so targets with one skip this step
+				if csl != 0 {
+					cur = dst
+					continue
+				}
 				time.Sleep(2 * time.Millisecond)
 				before := dst.Walk()
 				t0 := now()
